@@ -72,6 +72,22 @@ def build_harness(name="default", defines=(), harness="vh.c", san=True, cov=Fals
     cflags += ["-I" + d for d in include_dirs()]
     srcs = stack_sources() + [os.path.join(VERIF, "harness", harness)]
     objs = []
+    # The binary is always built from the CURRENT content of /repo's working tree: the key below is a hash over every source
+    # and header file of the stack, the harness and the complete command line; an identical build made by an earlier check of
+    # the same session is reused instead of compiling the same bytes again (a changed tree has a different key).
+    h = hashlib.sha256(" ".join(cflags).encode())
+    hdrs = []
+    for d in include_dirs():
+        hdrs += sorted(os.path.join(d, f) for f in os.listdir(d) if f.endswith(".h"))
+    for f in srcs + hdrs:
+        h.update(f.encode())
+        with open(f, "rb") as fh:
+            h.update(fh.read())
+    cdir = os.path.join(OUT, "buildcache", h.hexdigest()[:32])
+    exe = os.path.join(bdir, "vh")
+    if os.path.exists(os.path.join(cdir, "vh")):
+        shutil.copy2(os.path.join(cdir, "vh"), exe)
+        return exe
 
     def cc(s):
         o = os.path.join(bdir, hashlib.md5(s.encode()).hexdigest()[:8] + "_" + os.path.basename(s)[:-2] + ".o")
@@ -82,10 +98,22 @@ def build_harness(name="default", defines=(), harness="vh.c", san=True, cov=Fals
 
     with ThreadPoolExecutor(NCPU) as ex:
         objs = list(ex.map(cc, srcs))
-    exe = os.path.join(bdir, "vh")
     r = sh(cflags + objs + ["-o", exe])
     if r.returncode != 0:
         raise Infra("link error:\n" + r.stderr[-3000:])
+    try:
+        os.makedirs(cdir + ".tmp%d" % os.getpid())
+        shutil.copy2(exe, os.path.join(cdir + ".tmp%d" % os.getpid(), "vh"))
+        os.rename(cdir + ".tmp%d" % os.getpid(), cdir)
+    except OSError:
+        shutil.rmtree(cdir + ".tmp%d" % os.getpid(), ignore_errors=True)
+    # keep the cache small: the 40 most recent builds
+    try:
+        ent = sorted((os.path.getmtime(os.path.join(OUT, "buildcache", d)), d) for d in os.listdir(os.path.join(OUT, "buildcache")))
+        for _, d in ent[:-40]:
+            shutil.rmtree(os.path.join(OUT, "buildcache", d), ignore_errors=True)
+    except OSError:
+        pass
     return exe
 
 
